@@ -292,7 +292,14 @@ def _weave_fn(text, fs, fid, dserves, log, where, meta, in_trait_impl):
     if fs.twin:
         toks = lex(text)
         fn = X.split_fn(toks)
-        twin_text = "%s %s\n" % (fs.twin, untok(toks[fn["body"]:fn["end"] + 1]))
+        btoks = toks[fn["body"]:fn["end"] + 1]
+        if "self_" in fs.twin:
+            for t in btoks:
+                if t.kind == IDENT and t.text == "self":
+                    t.text = "self_"
+        twin_text = "%s %s\n" % (fs.twin, untok(btoks))
+        toks = lex(text)
+        fn = X.split_fn(toks)
         meta.setdefault("twins", []).append(dict(fn=fid, twin=fs.twin))
     text = _insert_hints(text, fs.hints, where)
     toks = lex(text)
@@ -374,19 +381,36 @@ def _strip_paths(text, log, where):
     st = sig(toks)
     drop = set()
     n = 0
-    for i, t in enumerate(st):
-        if t.kind == IDENT and t.text in STRIP_PATHS and i + 1 < len(st) and st[i + 1].text == "::":
-            if i >= 1 and st[i - 1].text == "::":
-                continue
-            drop.add(id(t))
-            drop.add(id(st[i + 1]))
-            n += 1
+    prefixes = sorted((p.split("::") for p in STRIP_PATHS), key=len, reverse=True)
+    i = 0
+    while i < len(st):
+        t = st[i]
+        if t.kind == IDENT and not (i >= 1 and st[i - 1].text == "::"):
+            for pre in prefixes:
+                k = len(pre)
+                seq = st[i:i + 2 * k]
+                if len(seq) == 2 * k and all(seq[2 * j].text == pre[j] and seq[2 * j + 1].text == "::" for j in range(k)):
+                    for x in seq:
+                        drop.add(id(x))
+                    n += 1
+                    i += 2 * k - 1
+                    break
+        i += 1
     if n:
         log.add("R17", where, "module path prefix x%d" % n, "")
     return untok([t for t in toks if id(t) not in drop])
 
 
+def _widen(text, log, where):
+    """R16: `pub(crate)` / `pub(super)` -> `pub` (visibility only)"""
+    new, n = re.subn(r"\bpub\s*\(\s*(crate|super)\s*\)", "pub", text)
+    if n:
+        log.add("R16", where, "pub(crate) x%d" % n, "pub")
+    return new
+
+
 def _rename(text, renames, log, where):
+    text = _widen(text, log, where)
     text = _strip_paths(text, log, where)
     return _rename0(text, renames, log, where)
 
